@@ -481,11 +481,20 @@ class ColorValue(Value):
                     # ORDER h l s !!!
                     r, g, b = colorsys.hls_to_rgb(h, l_, s)
                     # back to 255 based
-                    rgba = [
-                        int(round(r * 255)),
-                        int(round(g * 255)),
-                        int(round(b * 255)),
-                    ]
+                    try:
+                        rgba = [
+                            int(round(r * 255)),
+                            int(round(g * 255)),
+                            int(round(b * 255)),
+                        ]
+                    except (OverflowError, ValueError):
+                        # inf or nan from saturation / lightness far out of range
+                        self.wellformed = False
+                        self._log.error(
+                            'ColorValue: hsl() parameters out of range: %s'
+                            % self._valuestr(cssText)
+                        )
+                        return
 
                     if len(raw) > 3:
                         rgba.append(raw[3])
